@@ -570,7 +570,7 @@ def rule_r6(chk, m):
 
 
 def rule_r7(chk, m):
-    chk.rule("C09-R7", "every global name loaded in dates.py is bound at run time (symtable, annotations stripped)", floor=1)
+    chk.rule("C09-R7", "every global name loaded in dates.py is bound at run time (symtable, annotations stripped)", floor=1, shape_independent=True)
     unres = unresolved_globals(m, chk.repo)
     seen = set()
     for scope, nm in unres:
@@ -586,7 +586,7 @@ def rule_r8(chk, m):
     from .. import memo
     chk.rule("C09-R8", "periods and spans answer from their current fields: a memoised method/property (functools.cached_property, "
              "cache, lru_cache) of a class in dates.py reads only attributes that no method re-assigns after construction "
-             "(Span.shift/shift_end/reverse mutate in place, so length/iteration/indexing must not be cached across them)", floor=1)
+             "(Span.shift/shift_end/reverse mutate in place, so length/iteration/indexing must not be cached across them)", floor=1, shape_independent=True)
     n_examples = memo.self_check()
     classes = {c.name: c for c in m.tree.body if isinstance(c, ast.ClassDef)}
     found = 0
@@ -602,14 +602,14 @@ def rule_r8(chk, m):
 
 def run(chk):
     m = chk.repo.mod(MOD)
-    rule_r1(chk, m)
-    rule_r2(chk, m)
-    rule_r3(chk, m)
-    rule_r4(chk, m)
-    rule_r5(chk, m)
-    rule_r6(chk, m)
-    rule_r7(chk, m)
-    rule_r8(chk, m)
+    chk.guard(rule_r1, chk, m)
+    chk.guard(rule_r2, chk, m)
+    chk.guard(rule_r3, chk, m)
+    chk.guard(rule_r4, chk, m)
+    chk.guard(rule_r5, chk, m)
+    chk.guard(rule_r6, chk, m)
+    chk.guard(rule_r7, chk, m)
+    chk.guard(rule_r8, chk, m)
     chk.assumptions = [
         "datetime.date / calendar.monthrange are correct (the checker's own calendar module is the oracle for month lengths)",
         "year/segment forms are affine in year, so the sampled years (negative, 0, 1, 1999..9999) stand for all years",
